@@ -143,6 +143,7 @@ func runC13(c *eng.Ctx, tier string) {
 	c13FileCache(c)
 	c13Wire(c)
 	c13BadCache(c)
+	wholeInputJSON(c, "R-C13-5")
 	c13Validity(c)
 	c13NilMap(c)
 }
